@@ -177,6 +177,14 @@ impl Recv {
                 self.last_processed_id = frame.stream_id();
             }
 
+            // A pushed stream was admitted when it was promised but only
+            // counts from its response on: the peer may have opened more of
+            // them than we allow (RFC 9113, 5.1.2).
+            if !counts.can_inc_num_recv_streams() {
+                proto_err!(stream: "recv_headers: max concurrent streams exceeded; stream={:?}", stream.id);
+                return Err(Error::library_reset(stream.id, Reason::REFUSED_STREAM).into());
+            }
+
             // Increment the number of concurrent streams
             counts.inc_num_recv_streams(stream);
         }
